@@ -336,6 +336,111 @@ fn run(ctx: &mut Ctx) {
             }
         }
     });
+    // ---- every ordered pair of known boards (and of chips): a message of the first with one chunk of the second
+    let nb = macs.len() as u64;
+    ctx.cases("board-pairs", nb * nb, |ctx, i, rng| {
+        let (a, b) = ((i / nb) as usize, (i % nb) as usize);
+        let rs = 3u16;
+        let chip = rng.usize(4);
+        let p = Pwb::new(['A', 'B', 'C', 'D'][chip], macs[a], rs, vec![(1 + rng.below(79) as u16, super::c05::samples(rng, rs, i)), ]);
+        let payload = p.encode();
+        let cs = (payload.len() + 2) / 3;
+        let raw = p.chunks(pwb_device_id(&macs[a]), chip as u8, cs);
+        let chunks: Vec<Chunk> = raw.iter().map(dec).collect();
+        let nn = chunks.len();
+        for k in 0..nn {
+            for variant in 0..2 {
+                let mut r2 = raw[k].clone();
+                if a == b && variant == 0 {
+                    continue; // same board: only the chip variant below is a fault
+                }
+                if variant == 0 {
+                    r2.device_id = pwb_device_id(&macs[b]);
+                } else if a == b {
+                    r2.channel_id = (r2.channel_id + 1 + (k as u8 % 3)) % 4;
+                } else {
+                    continue;
+                }
+                let mut l = chunks.clone();
+                l[k] = dec(&r2);
+                for rev in [false, true] {
+                    if rev {
+                        l.reverse();
+                    }
+                    ctx.count(if variant == 0 { "board pairs: one chunk of the other board" } else { "chip pairs: one chunk of another chip" });
+                    match reassemble(ctx, &l) {
+                        Some(Ok(_)) => {
+                            ctx.violation("reassembly succeeded under fault: chunk of another board / chip", format!("message of board {} with chunk {} from board {} (chip byte {} vs {})", PWB_BOARDS[a].0, k, PWB_BOARDS[b].0, raw[k].channel_id, r2.channel_id), json!({"chunks_in_arrival_order": describe(&l)}));
+                            return;
+                        }
+                        Some(Err(_)) => {}
+                        None => return,
+                    }
+                }
+            }
+        }
+    });
+    ctx.require("board pairs: one chunk of the other board", 4000);
+    // ---- large messages (up to the largest PWB packet, 81 268 bytes) in few large chunks: every order / sampled orders
+    ctx.cases("large-messages", ctx.tier.pick(40, 160), |ctx, i, rng| {
+        let nch = [40usize, 41, 50, 64, 79][(i % 5) as usize];
+        let rs = if i % 7 == 6 { 400 + rng.below(112) as u16 } else { 511u16 };
+        let mut ids: Vec<u16> = (1..=79).collect();
+        rng.shuffle(&mut ids);
+        let mut ids = ids[..nch].to_vec();
+        ids.sort();
+        let mac = *rng.pick(&macs);
+        let chip = rng.usize(4);
+        let p = Pwb::new(['A', 'B', 'C', 'D'][chip], mac, rs, ids.iter().map(|c| (*c, super::c05::samples(rng, rs, i))).collect());
+        let payload = p.encode();
+        let pl = payload.len();
+        let sizes = [65535usize, pl - 1, pl / 2 + 1, pl / 2, pl / 3 + 1, pl / 4 + 1, pl / 5 + 1, 40_000, 30_000, 8_000, 1_440, 1 + pl / (2 + rng.usize(30))];
+        let cs = sizes[((i / 5) as usize) % sizes.len()].clamp(1, 65535);
+        let raw = p.chunks(pwb_device_id(&mac), chip as u8, cs);
+        let chunks: Vec<Chunk> = raw.iter().map(dec).collect();
+        let nn = chunks.len();
+        let direct = match guard(|| PwbV2Packet::try_from(&payload[..])) {
+            Ok(Ok(pk)) => Ok(format!("{:?}", pk)),
+            Ok(Err(_)) => Err("BadPayload".to_string()),
+            Err(pn) => {
+                ctx.panic_violation("PwbV2Packet::try_from(&[u8])", &pn, json!({"len": pl}));
+                return;
+            }
+        };
+        let orders: Vec<Vec<usize>> = if nn <= 4 {
+            permutations(nn)
+        } else {
+            let mut o: Vec<Vec<usize>> = vec![(0..nn).collect(), (0..nn).rev().collect()];
+            for k in [1, nn / 2, nn - 1] {
+                let mut v: Vec<usize> = (0..nn).collect();
+                v.rotate_left(k);
+                o.push(v);
+            }
+            for _ in 0..6 {
+                let mut v: Vec<usize> = (0..nn).collect();
+                rng.shuffle(&mut v);
+                o.push(v);
+            }
+            o
+        };
+        for ord in &orders {
+            let list: Vec<Chunk> = ord.iter().map(|k| chunks[*k].clone()).collect();
+            let Some(o) = reassemble(ctx, &list) else { return };
+            let mut d = Digest::new();
+            d.bytes(&payload[..64]);
+            d.u64(cs as u64);
+            for k in ord {
+                d.u64(*k as u64);
+            }
+            ctx.nontrivial(d.0);
+            if o != direct {
+                ctx.violation("reassembly outcome differs from direct decode of the concatenation", format!("{} byte message in {} chunks of {} bytes, arrival order {:?}: got {:?}", pl, nn, cs, &ord[..ord.len().min(12)], o.as_ref().map(|s| s.len()).map_err(|e| e.clone())), json!({"payload_len": pl, "chunk_size": cs, "order": ord}));
+                return;
+            }
+            ctx.count("orders of messages > 40 KB reassembled identically");
+        }
+    });
+    ctx.require("orders of messages > 40 KB reassembled identically", 100);
     // ---- messages of more than 32768 / close to 65536 chunks: id comparison across half the 16-bit range
     ctx.cases("many-chunks", ctx.tier.pick(4, 16), |ctx, i, rng| {
         let rs = 511u16;
